@@ -12,7 +12,8 @@
 (* (Report).  Cross-cutting clauses stated here:                                                              *)
 (*   OnlyDesignChangesSettings, OnlyAssignChangesOccupancy, SimParamsUntouched, OccupancyMonotone,            *)
 (*   StagesInOrder, BlockedNeverAdvances (a request blocked at routing is not propagated; a blocked request   *)
-(*   never holds spectrum nor labels), ReportedOnce.                                                          *)
+(*   never holds spectrum nor labels), ReportedOnce; on recorded runs also OmsListFrozen (the OMS partition   *)
+(*   is built once and no later stage touches it) and LibraryUntouched (the equipment library is an input).   *)
 EXTENDS GnpyBase, TLC
 
 CONSTANTS Req,          \* request identifiers of the batch
